@@ -9,6 +9,7 @@ to the bytes actually durable on the simulated disk.
 """
 import copy
 
+from .. import envmode
 from ..kernel import Violation, Discard, SimCrash, feq, canon, cjson
 from ..gen import AA, gen_seq
 from ..simfs import SimFS
@@ -37,7 +38,7 @@ ASSUMPTIONS = ["non-space whitespace strictly inside a sequence line (TAB, NBSP,
                "files reducing to an empty sequence, a first header appearing after sequence lines (the reference refuses to judge these: DISCARDED)",
                "lower-case letters count as foreign characters (they are today)",
                "open handles after a call are counted as a probe, not a verdict (the statement does not mention handles)"]
-PROBES = ["parser_instance_reused", "second_object_from_same_file_after_mutator", "later_file_in_same_process", "same_file_read_again", "path_rewritten_with_new_content", "file_larger_than_io_buffer", "torn_file", "torn_inside_header", "crlf", "short_reads_1_byte", "chunk_splits_crlf", "eio_fired_before_eof", "eio_scheduled_past_eof",
+PROBES = ["file_name_with_glob_characters", "parser_instance_reused", "second_object_from_same_file_after_mutator", "later_file_in_same_process", "same_file_read_again", "path_rewritten_with_new_content", "file_larger_than_io_buffer", "torn_file", "torn_inside_header", "crlf", "short_reads_1_byte", "chunk_splits_crlf", "eio_fired_before_eof", "eio_scheduled_past_eof",
           "open_error", "corrupt_second_header", "corrupt_second_star", "corrupt_nonfinal_star", "corrupt_foreign_char",
           "corrupt_invalid_utf8", "valid_with_star", "numbered_layout", "panel_compared", "permutants_constructor",
           "no_final_newline", "reference_rejects", "reference_accepts"]
@@ -256,7 +257,7 @@ def gen_step(rnd, frnd, big=False):
             fault["open"] = frnd.choice(("ENOENT", "EACCES", "EISDIR"))
     api = rnd.choice(("parser", "parser", "SP", "SP", "perm"))
     st = {"file": data.decode("latin-1"), "torn_at": torn, "fault": fault, "api": api, "meta": meta,
-          "path": rnd.choice((PATH, PATH, "/sim/other.txt"))}
+          "path": rnd.choice((PATH, PATH, "/sim/other.txt", "/sim/P04637[1].fasta", "/sim/seq *.txt", "/sim/a?c.fa", "/sim/sub dir/seq.fasta", "/sim/séq.fasta"))}
     if api == "SP" and rnd.random() < 0.35:
         st["twin"] = {"mut": rnd.choice(("sites", "palette"))}
     if api == "parser" and rnd.random() < 0.3:
@@ -284,7 +285,7 @@ def gen_plan(streams, tier):
         else:
             st = gen_step(rnd, frnd, big=(k == 0 and rnd.random() < 0.04))
         steps.append(st)
-    return {"property": ID, "noise": (rnd.randrange(1 << 30) if rnd.random() < 0.2 else None), "run_seed": streams.run_seed, "steps": steps}
+    return {"property": ID, "env": envmode.choose(rnd), "noise": (rnd.randrange(1 << 30) if rnd.random() < 0.2 else None), "run_seed": streams.run_seed, "steps": steps}
 
 
 def corpus():
@@ -331,6 +332,9 @@ def corpus():
         st(">a\nACDEFGHIK\n", shared_parser=True), st(">b\nLMNPQ\n", path="/sim/other.txt", shared_parser=True),
         {"reuse": True, "path": PATH, "fault": {"chunks": None, "eio_at": None, "open": None}, "api": "parser", "meta": {}, "shared_parser": True},
         st("ACD*EF\n", shared_parser=True), st(">c\nRSTVWY*\n", shared_parser=True)]}))
+    out.append(("file_names_with_glob_characters", {"property": ID, "run_seed": 164, "steps": [
+        st(">a\nACDEFGHIK\n", path="/sim/P04637[1].fasta", api="SP"), st("LMNPQ*RS\n", path="/sim/P04637[1].fasta", api="SP"),
+        st("ACDEF\n", path="/sim/seq *.txt", api="perm"), st(">x\nGHIKL\n", path="/sim/a?c.fa", api="parser")]}))
     out.append(("same_path_rewritten", {"property": ID, "run_seed": 160, "steps": [
         st(">a\nACDEFGHIK\n"), st(">b\nLMNPQ\nRSTVWY\n"), {"reuse": True, "path": PATH, "fault": {"chunks": [1], "eio_at": None, "open": None}, "api": "SP", "meta": {}},
         st("KKKK\n", path="/sim/other.txt", api="perm"), {"reuse": True, "path": PATH, "fault": {"chunks": None, "eio_at": None, "open": None}, "api": "parser", "meta": {}}]}))
@@ -406,6 +410,7 @@ PANEL = ("get_sequence", "get_length", "get_FCR", "get_NCPR", "get_mean_hydropat
 
 
 def execute(plan, ctx):
+    envmode.apply(plan.get("env"), ctx)
     import localcider.backend.seqfileparser as sfp
     import localcider.sequenceParameters as spmod
     spmod.print = lambda *a, **k: None
@@ -443,6 +448,15 @@ def do_step(k, plan, fs, ctx, rnd, sfp):
     fs.chunks = None
     fs.open_faults = {}
 
+    import os as _os
+    if any(ch in PATHK for ch in "[*?"):
+        # a neighbour that the name would match if it were (wrongly) treated as a pattern
+        ctx.probe("file_name_with_glob_characters")
+        for nb in ("P046371.fasta", "seq x.txt", "abc.fa"):
+            if not fs.exists(fs.root + "/" + nb):
+                fs.write_file(fs.root + "/" + nb, b">neighbour\nWWWWWWWWWW\n")
+    if not _os.path.isdir(_os.path.dirname(PATHK)):
+        _os.makedirs(_os.path.dirname(PATHK))
     if plan.get("reuse"):
         ctx.probe("same_file_read_again")
     else:
